@@ -229,6 +229,13 @@ func VH18a_modes() {
 			verif.Reach("no-peers-immediate")
 		} else {
 			// blocked receiver, then the last peer leaves
+			if proto == "req" {
+				// REQ only receives for an outstanding request
+				if ep.SendMsg(newMsg(proto)) != nil {
+					break
+				}
+				verif.Quiesce()
+			}
 			var rerr error
 			gr := verif.Go("recv", func() { _, rerr = ep.RecvMsg() })
 			verif.Quiesce()
